@@ -1,4 +1,5 @@
-// C16 harness: tensor indexing / views / slices / reshape / gather / integral / remove_if / stack on the real headers.
+// C16 harness: tensor indexing / views / slices (all storages, range overload, rank-1 segment) / reshape (all storages) /
+// gather (several return scalar types) / integral / remove_if / stack (vector and matrix form) on the real headers.
 #include "common.h"
 #include <array>
 #include <nano/tensor.h>
